@@ -171,6 +171,39 @@ impl<TC: ModelCfg> Prover<TC> {
         }
         hp
     }
+    /// the history claim [s..n] with the entry of version `v` replaced by a copy of each neighbouring entry
+    /// (entries whose own proofs cannot be generated on this tree are skipped)
+    async fn history_with_overwrite(&self, s: u64, n: u64, v: u64) -> Vec<HistoryProof> {
+        // build entries individually, tolerating the one that needs the missing leaf
+        let full = {
+            let mut ups = vec![];
+            for ver in (s..=n).rev() {
+                ups.push(UpdateProof {
+                    epoch: 1,
+                    version: ver,
+                    value: AkdValue(value_of(ver)),
+                    existence_vrf_proof: self.srv.vrf_proof(LABEL, true, ver).await,
+                    existence_proof: self.srv.member(node_label::<TC>(LABEL, true, ver)).await,
+                    previous_version_vrf_proof: if ver > 1 { Some(self.srv.vrf_proof(LABEL, false, ver - 1).await) } else { None },
+                    previous_version_proof: if ver > 1 { Some(self.srv.member(node_label::<TC>(LABEL, false, ver - 1)).await) } else { None },
+                    commitment_nonce: self.srv.nonce(LABEL, ver, &value_of(ver)),
+                });
+            }
+            ups
+        };
+        let template = self.history(s, n).await;
+        let idx = (n - v) as usize;
+        let mut out = vec![];
+        for nb in [idx.wrapping_sub(1), idx + 1] {
+            if nb < full.len() {
+                let mut h = template.clone();
+                h.update_proofs = full.clone();
+                h.update_proofs[idx] = full[nb].clone();
+                out.push(h);
+            }
+        }
+        out
+    }
     async fn lookup(&self, m: u64) -> LookupProof {
         let fresh = self.srv.non_member(node_label::<TC>(LABEL, false, m)).await;
         self.srv.lookup_claim(LABEL, m, &value_of(m), 1, fresh).await
@@ -246,6 +279,25 @@ fn conformance<TC: ModelCfg>(args: &Args, rep: &Report, emax: u64) {
                 rep.eval(1);
                 if accepts::<TC>(&t, *e, c).await.is_some() {
                     rep.violation(ident("accepted_without_a_required_leaf"), json!({"claim": format!("{c:?}"), "epoch": e, "missing": format!("{a:?}")}));
+                }
+                // the server's work-around: present the history with the entry that needs the missing leaf
+                // overwritten by a copy of a neighbouring entry (same length, a duplicate plus a gap)
+                if let Claim::History(s, n) = c {
+                    let affected = match a {
+                        Atom::F(v) => *v,
+                        Atom::S(v) => *v + 1,
+                    };
+                    if affected >= *s && affected <= *n && n > s {
+                        let p = prover::<TC>(&t, *e).await;
+                        let base = p.history_with_overwrite(*s, *n, affected).await;
+                        for cand in base {
+                            rep.traces(1);
+                            rep.eval(1);
+                            if p.verify_history(cand, *s, *n).is_some() {
+                                rep.violation(ident("accepted_with_duplicated_entry_in_place_of_missing_leaf"), json!({"claim": format!("{c:?}"), "epoch": e, "missing": format!("{a:?}")}));
+                            }
+                        }
+                    }
                 }
             }
             // (iii) adding any one required-absent atom makes it fail
